@@ -245,6 +245,8 @@ package playlist
 //@   loop 1 invariant forall(j, (0 <= j && j < len(curSegment.Parts)) ==> partOK(curSegment.Parts[j]))
 //@   loop 1 invariant forall(i, (0 <= i && i < len(m.Segments)) ==> (m.Segments[i].ByteRangeStart == nil || m.Segments[i].ByteRangeStart != curSegment.ByteRangeStart))
 //@   loop 1 invariant forall(i, (0 <= i && i < len(m.Segments)) ==> (m.Segments[i].ByteRangeLength == nil || m.Segments[i].ByteRangeLength != curSegment.ByteRangeLength))
+//@   loop 1 invariant forall(i, (0 <= i && i < len(m.Segments)) ==> (m.Segments[i].Bitrate == nil || m.Segments[i].Bitrate != curSegment.Bitrate))
+//@   loop 1 invariant forall(i, (0 <= i && i < len(m.Segments)) ==> (m.Segments[i].DateTime == nil || m.Segments[i].DateTime != curSegment.DateTime))
 //@   loop 1 invariant m.Map != nil ==> m.Map.URI != ""
 //@   loop 1 invariant m.PartInf != nil ==> m.PartInf.PartTarget != 0
 //@   loop 1 invariant m.PreloadHint != nil ==> m.PreloadHint.URI != ""
